@@ -33,7 +33,7 @@ RULE = ('(i) argument lists over {letters, space, tab, LF, \', ", \\, e-acute, U
         'non-default settings')
 ASSUMPTIONS = ['the three quoting functions encode only the documented rules of split_command_line',
                'the probe reads /proc/self/environ, TIOCGWINSZ, termios and the SIGHUP disposition it was exec\'d with']
-REQUIRED = ['roundtrips', 'roundtrips_leading_ws', 'which_layouts', 'which_spawn_crosschecks', 'probe_spawns',
+REQUIRED = ['which_sequences', 'roundtrips', 'roundtrips_leading_ws', 'which_layouts', 'which_spawn_crosschecks', 'probe_spawns',
             'probe_popen', 'enumerated_roundtrips']
 
 PROBE = os.path.join(PEERS, 'probe.py')
@@ -132,6 +132,7 @@ def plan(tier, seed):
     for i in range(k):
         specs.append({'mode': 'which', 'n': 100 if tier == 'quick' else 600, 'shard': i, 'seed': seed})
         specs.append({'mode': 'probe', 'n': 30 if tier == 'quick' else 250, 'shard': i, 'seed': seed})
+        specs.append({'mode': 'which-seq', 'n': 40 if tier == 'quick' else 400, 'shard': i, 'seed': seed})
     return specs
 
 
@@ -192,6 +193,14 @@ def run_shard(spec, acc):
         try:
             for i in range(spec['n']):
                 which_case(gen_which(rng, i), tmp, acc)
+        finally:
+            shutil.rmtree(tmp, ignore_errors=True)
+    elif m == 'which-seq':
+        rng = rng_for(spec['seed'], spec['shard'], 133)
+        tmp = tempfile.mkdtemp(prefix='pvmon-c13-')
+        try:
+            for i in range(spec['n']):
+                which_sequence(rng, tmp, acc)
         finally:
             shutil.rmtree(tmp, ignore_errors=True)
     elif m == 'probe':
@@ -354,6 +363,62 @@ def which_case(c, tmp, acc):
             os.environ.pop('PATH', None)
         else:
             os.environ['PATH'] = old_path
+        shutil.rmtree(root, ignore_errors=True)
+
+
+def which_sequence(rng, tmp, acc):
+    """One PATH string, one command name, the layout behind them changes between look-ups (a program is
+    installed in an earlier directory, loses its execute bit, is replaced by a directory ...): every look-up
+    must give the first match of the layout as it is now."""
+    acc.case()
+    acc.count('which_sequences')
+    root = tempfile.mkdtemp(dir=tmp)
+    try:
+        dirs = []
+        for k in range(3):
+            d = os.path.join(root, 'd%d' % k)
+            os.makedirs(d)
+            dirs.append(d)
+        pathstr = os.pathsep.join(dirs)
+        env = {'PATH': pathstr}
+        name = 'prog'
+        history = []
+        for step in range(rng.randint(3, 8)):
+            k = rng.randrange(3)
+            kind = rng.choice(['exec', 'exec', 'noexec', 'dir', 'absent', 'symlink-exec'])
+            target = os.path.join(dirs[k], name)
+            for pth in (target, target + '.target'):
+                if os.path.islink(pth) or os.path.isfile(pth):
+                    os.unlink(pth)
+                elif os.path.isdir(pth):
+                    shutil.rmtree(pth)
+            if kind != 'absent':
+                mkfile(target, kind, 'd%d' % k)
+            history.append((k, kind))
+            exp = which_ref(name, pathstr, root)
+            got = which(name, env=env)
+            acc.count('which_layouts')
+            if got != exp:
+                acc.violation('which-not-first-match-after-layout-change',
+                              'PATH=d0:d1:d2, layout changes %r: which() = %r, first match now is %r' % (
+                                  history, got and os.path.relpath(got, root), exp and os.path.relpath(exp, root)),
+                              {'kind': 'which-seq', 'history': history})
+                return
+            if exp is not None and step % 3 == 2:
+                acc.count('which_spawn_crosschecks')
+                ch = pexpect.spawn(name, ['x'], env=env, timeout=10)
+                ch.expect(pexpect.EOF)
+                out = ch.before
+                ch.close()
+                ident = out.split(b'ID:')[1].split(b':DI')[0].decode() if b'ID:' in out else None
+                want = os.path.basename(os.path.dirname(exp))
+                if ident != want:
+                    acc.violation('spawned-program-not-first-match', 'after layout changes %r spawn ran %r, first match is %s' % (
+                        history, ident, want), {'kind': 'which-seq', 'history': history})
+                    return
+        if len(history) >= 3:
+            acc.nontrivial('c13q', history)
+    finally:
         shutil.rmtree(root, ignore_errors=True)
 
 
